@@ -1053,6 +1053,15 @@ def std_summary(tb, path, upath, fr, args):
         if opn == "wrapping_neg":
             return ("wrap", "Neg", (args[0],), ity)
         return ("wrap", {"wrapping_add": "Add", "wrapping_sub": "Sub", "wrapping_mul": "Mul"}[opn], args, ity)
+    if path.startswith("core::num::<impl ") and path.rsplit("::", 1)[1] in ("checked_rem", "checked_div"):
+        ity = path[len("core::num::<impl "):].split(">")[0]
+        if is_uint(ity):
+            return ("checked", path.rsplit("::", 1)[1][8:].capitalize(), args, ity)
+    if path == "core::alloc::layout::Layout::size" and len(args) == 1:
+        a = args[0]
+        a = a[1] if a[0] in ("ref",) else a
+        if a[0] == "unwrap" and a[1][0] == "call" and str(a[1][1]).endswith("Layout::from_size_align") and len(a[1][2]) == 2:
+            return a[1][2][0]        # Layout::from_size_align(size, align).unwrap().size() == size
     if path.startswith("core::num::<impl ") and path.rsplit("::", 1)[1] in ("checked_sub", "checked_add", "checked_mul"):
         ity = path[len("core::num::<impl "):].split(">")[0]
         return ("checked", path.rsplit("::", 1)[1][8:].capitalize(), args, ity)
